@@ -239,6 +239,32 @@ def unroll_table_loops(tree: ast.Module) -> int:
                 out.append(keep)  # the loop variable keeps its last value
                 count += 1
                 return out
+            # `for data in (X, y): BODY` over a few plain names: BODY with the name in place of the loop variable
+            if (
+                isinstance(it, (ast.Tuple, ast.List))
+                and 2 <= len(it.elts) <= 4
+                and all(isinstance(e, ast.Name) for e in it.elts)
+                and isinstance(tg, ast.Name)
+                and not node.orelse
+                and not any(isinstance(x, (ast.Break, ast.Continue)) for b in node.body for x in ast.walk(b))
+                and not any(isinstance(x, ast.Name) and (x.id == tg.id or x.id in {e.id for e in it.elts}) and isinstance(x.ctx, (ast.Store, ast.Del)) for b in node.body for x in ast.walk(b))
+                and not any(isinstance(x, (ast.FunctionDef, ast.Lambda)) for b in node.body for x in ast.walk(b))
+            ):
+                fn = owner.get(id(node))
+                inside = {id(x) for x in ast.walk(node)}
+                read_outside = fn is None or any(isinstance(x, ast.Name) and x.id == tg.id and id(x) not in inside for x in ast.walk(fn))
+                if not read_outside:
+                    out = []
+                    for e in it.elts:
+                        class S3(ast.NodeTransformer):
+                            def visit_Name(self, n, _e=e):
+                                if n.id == tg.id and isinstance(n.ctx, ast.Load):
+                                    return ast.copy_location(ast.Name(id=_e.id, ctx=ast.Load()), n)
+                                return n
+
+                        out.extend(S3().visit(copy.deepcopy(b)) for b in node.body)
+                    count += 1
+                    return out
             # a search over a literal table: `for k, f in T: if x == k: A(f); break` + `else: E` is the
             # if / elif chain over the rows with E as its final else
             if (
@@ -1125,6 +1151,149 @@ def fill_loop_to_dict(tree: ast.Module) -> int:
         return out
 
     for fn in [n for n in ast.walk(tree) if isinstance(n, (ast.FunctionDef, ast.AsyncFunctionDef))]:
+        fn.body = rewrite(fn.body)
+    if count:
+        ast.fix_missing_locations(tree)
+    return count
+
+
+# ---------------------------------------------------------------------------------
+# a, b = (f(x) for x in (p, q))     ->     a = f(p); b = f(q)
+# ---------------------------------------------------------------------------------
+def unpack_literal_comprehension(tree: ast.Module) -> int:
+    import copy
+
+    count = 0
+
+    def simple(e):
+        return isinstance(e, (ast.Name, ast.Constant)) or (isinstance(e, ast.Attribute) and simple(e.value))
+
+    def rewrite(block):
+        nonlocal count
+        out = []
+        for st in block:
+            for fld in ("body", "orelse", "finalbody"):
+                sub = getattr(st, fld, None)
+                if isinstance(sub, list) and sub and isinstance(sub[0], ast.stmt):
+                    setattr(st, fld, rewrite(sub))
+            for h in getattr(st, "handlers", []) or []:
+                h.body = rewrite(h.body)
+            new = None
+            if isinstance(st, ast.Assign) and len(st.targets) == 1 and isinstance(st.targets[0], (ast.Tuple, ast.List)) and all(isinstance(t, ast.Name) for t in st.targets[0].elts) and isinstance(st.value, (ast.GeneratorExp, ast.ListComp)) and len(st.value.generators) == 1:
+                gen = st.value.generators[0]
+                tnames = [t.id for t in st.targets[0].elts]
+                if not gen.ifs and not gen.is_async and isinstance(gen.target, ast.Name) and isinstance(gen.iter, (ast.Tuple, ast.List)) and len(gen.iter.elts) == len(tnames) and all(simple(e) for e in gen.iter.elts) and len(set(tnames)) == len(tnames):
+                    v = gen.target.id
+                    elt_names = {x.id for x in ast.walk(st.value.elt) if isinstance(x, ast.Name)} - {v}
+                    clash = bool(elt_names & set(tnames))
+                    for i, e in enumerate(gen.iter.elts):
+                        for x in ast.walk(e):
+                            if isinstance(x, ast.Name) and x.id in tnames and tnames.index(x.id) < i:
+                                clash = True  # a later element reads a target that the split form has already re-bound
+                    if not clash and not any(isinstance(x, (ast.Lambda, ast.NamedExpr, ast.Yield, ast.Await)) for x in ast.walk(st.value.elt)):
+                        new = []
+                        for t, e in zip(st.targets[0].elts, gen.iter.elts):
+
+                            class S(ast.NodeTransformer):
+                                def visit_Name(self, n, _e=e):
+                                    if n.id == v and isinstance(n.ctx, ast.Load):
+                                        return ast.copy_location(copy.deepcopy(_e), n)
+                                    return n
+
+                            a = ast.Assign(targets=[ast.Name(id=t.id, ctx=ast.Store())], value=S().visit(copy.deepcopy(st.value.elt)), type_comment=None)
+                            ast.copy_location(a, st)
+                            ast.fix_missing_locations(a)
+                            new.append(a)
+                        count += 1
+            out.extend(new if new is not None else [st])
+        return out
+
+    for fn in [n for n in ast.walk(tree) if isinstance(n, (ast.FunctionDef, ast.AsyncFunctionDef))]:
+        fn.body = rewrite(fn.body)
+    if count:
+        ast.fix_missing_locations(tree)
+    return count
+
+
+# ---------------------------------------------------------------------------------
+# g = A if c else B; ...; x = g(args)      ->      if c: x = A(args) else: x = B(args)
+# ---------------------------------------------------------------------------------
+def select_callable(tree: ast.Module) -> int:
+    """a local bound once to one of two functions by a conditional expression, and only ever called: each call
+    statement becomes the two-armed `if` on the same condition (whose operands are written at most once, before
+    the selection), so that call resolution, specialisation and the path explorer see the two callees"""
+    import copy
+
+    count = 0
+    for fn in [n for n in ast.walk(tree) if isinstance(n, (ast.FunctionDef, ast.AsyncFunctionDef))]:
+        stores, loads = {}, {}
+        for n in ast.walk(fn):
+            if isinstance(n, ast.Name):
+                d = stores if isinstance(n.ctx, (ast.Store, ast.Del)) else loads
+                d[n.id] = d.get(n.id, 0) + 1
+        params = {a.arg for a in fn.args.posonlyargs + fn.args.args + fn.args.kwonlyargs}
+        sel = {}
+        for st in ast.walk(fn):
+            if isinstance(st, ast.Assign) and len(st.targets) == 1 and isinstance(st.targets[0], ast.Name) and isinstance(st.value, ast.IfExp) and isinstance(st.value.body, ast.Name) and isinstance(st.value.orelse, ast.Name):
+                g = st.targets[0].id
+                cond_names = {x.id for x in ast.walk(st.value.test) if isinstance(x, ast.Name)}
+                if stores.get(g) == 1 and g not in params and all(stores.get(c, 0) <= (0 if c in params else 1) for c in cond_names) and not any(isinstance(x, ast.Call) for x in ast.walk(st.value.test)):
+                    sel[g] = st
+        if not sel:
+            continue
+        # every use of g is the callee of a call that is the whole value of a simple statement
+        call_stmts = {g: [] for g in sel}
+        used = {g: 0 for g in sel}
+
+        def scan(block):
+            for st in block:
+                for fld in ("body", "orelse", "finalbody"):
+                    sub = getattr(st, fld, None)
+                    if isinstance(sub, list) and sub and isinstance(sub[0], ast.stmt) and not isinstance(st, (ast.FunctionDef, ast.AsyncFunctionDef, ast.ClassDef)):
+                        scan(sub)
+                for h in getattr(st, "handlers", []) or []:
+                    scan(h.body)
+                v = getattr(st, "value", None)
+                if isinstance(st, (ast.Assign, ast.Expr, ast.Return)) and isinstance(v, ast.Call) and isinstance(v.func, ast.Name) and v.func.id in sel:
+                    inner = sum(1 for x in ast.walk(st) if isinstance(x, ast.Name) and x.id == v.func.id and isinstance(x.ctx, ast.Load))
+                    if inner == 1:
+                        call_stmts[v.func.id].append(st)
+                        used[v.func.id] += 1
+
+        scan(fn.body)
+        ok = {g for g in sel if used[g] == loads.get(g, 0) and used[g] > 0}
+        if not ok:
+            continue
+
+        def rewrite(block):
+            nonlocal count
+            out = []
+            for st in block:
+                for fld in ("body", "orelse", "finalbody"):
+                    sub = getattr(st, fld, None)
+                    if isinstance(sub, list) and sub and isinstance(sub[0], ast.stmt) and not isinstance(st, (ast.FunctionDef, ast.AsyncFunctionDef, ast.ClassDef)):
+                        setattr(st, fld, rewrite(sub))
+                for h in getattr(st, "handlers", []) or []:
+                    h.body = rewrite(h.body)
+                if any(st is sel[g] for g in ok):
+                    continue  # the selection itself: every use is rewritten
+                hit = next((g for g in ok if any(st is c for c in call_stmts[g])), None)
+                if hit is not None:
+                    ife = sel[hit].value
+                    arms = []
+                    for callee in (ife.body, ife.orelse):
+                        s2 = copy.deepcopy(st)
+                        s2.value.func = ast.copy_location(ast.Name(id=callee.id, ctx=ast.Load()), st.value.func)
+                        arms.append(s2)
+                    new = ast.If(test=copy.deepcopy(ife.test), body=[arms[0]], orelse=[arms[1]])
+                    ast.copy_location(new, st)
+                    ast.fix_missing_locations(new)
+                    out.append(new)
+                    count += 1
+                    continue
+                out.append(st)
+            return out
+
         fn.body = rewrite(fn.body)
     if count:
         ast.fix_missing_locations(tree)
